@@ -29,7 +29,8 @@ type lEntry struct {
 	err      error
 	panicked bool
 	seq      int
-	stored   bool // reached the real replayer successfully
+	stored   bool          // reached the real replayer successfully
+	at       time.Duration // simulated instant of the Put
 }
 
 type replayCall struct {
@@ -71,7 +72,7 @@ func (r *simReplayer) Put(m *sse.Message, topics []string) (out *sse.Message, er
 	defer func() { r.inCall = false }()
 	r.putN++
 	w := r.w
-	e := lEntry{tag: msgTag(m), topics: topics, in: m, out: m, seq: w.tick()}
+	e := lEntry{tag: msgTag(m), topics: topics, in: m, out: m, seq: w.tick(), at: w.sim.Elapsed()}
 	idx := len(r.puts)
 	r.puts = append(r.puts, e)
 	w.sim.Logf("Put", "L[%d]=%s topics=%s", idx, e.tag, fmtTopics(topics))
@@ -116,6 +117,7 @@ func (r *simReplayer) Replay(sub sse.Subscription) error {
 	if js != nil {
 		js.accepted = rc.seq
 		js.acceptLpos = rc.lpos
+		js.acceptAt = w.sim.Elapsed()
 		w.accepted++
 		w.sim.Logf("Replay", "sub%d accepted at |L|=%d lastID=%q", js.id, rc.lpos, sub.LastEventID.String())
 	}
@@ -174,6 +176,7 @@ type joeSub struct {
 
 	accepted   int // seq of the Replay call (0: not seen)
 	acceptLpos int
+	acceptAt   time.Duration
 	replayedN  int
 	replayErr  error
 
@@ -238,8 +241,9 @@ type joeWorld struct {
 	rep *simReplayer
 
 	faults    bool
-	noWitness bool // Joe runs without any Replayer: no Put-order witness
-	repKind   int  // 0 none, 1 finite, 2 valid
+	noWitness bool          // Joe runs without any Replayer: no Put-order witness
+	ttl       time.Duration // ValidReplayer with a real TTL (0: far above the run's duration)
+	repKind   int           // 0 none, 1 finite, 2 valid
 	auto      bool
 	capacity  int
 
@@ -319,7 +323,13 @@ func (w *joeWorld) generate() {
 		}
 		w.rep.inner = fr
 	case 2:
-		vr, err := sse.NewValidReplayer(1000*time.Hour, w.auto) // TTL far above the run's duration; expiry is C09's
+		ttl := 1000 * time.Hour // far above the run's duration
+		if ch.Chance(1, 3, "valid replayer with a real TTL") {
+			// events really expire while the run goes on (ticks are enabled below)
+			w.ttl = []time.Duration{5 * time.Second, 2 * time.Minute}[ch.Intn(2, "ttl")]
+			ttl = w.ttl
+		}
+		vr, err := sse.NewValidReplayer(ttl, w.auto)
 		if err != nil {
 			panic(err)
 		}
@@ -694,6 +704,9 @@ func runJoeWorld(rc *RunCtx) *Outcome {
 				cfg.TickOneIn = 8
 			}
 			w.generate()
+			if w.ttl > 0 {
+				cfg.TickOneIn = 3
+			}
 			w.sim = verifhook.New(rc.Ch, cfg)
 			w.sim.SetRanker(func(key, value any) (int64, bool) {
 				if sub, ok := value.(sse.Subscription); ok {
@@ -767,6 +780,9 @@ func (w *joeWorld) describe() []string {
 	rk := []string{"no real replayer", "FiniteReplayer", "ValidReplayer"}[w.repKind]
 	if w.noWitness {
 		rk = "none (Joe's built-in no-op)"
+	}
+	if w.ttl > 0 {
+		rk += fmt.Sprintf(" ttl=%v", w.ttl)
 	}
 	out = append(out, fmt.Sprintf("replayer=%s capacity=%d autoIDs=%v faults=%v prehistory=%d putFail=%d putPanic=%d replayFail=%d replayPanic=%d",
 		rk, w.capacity, w.auto, w.faults, w.prehistory, w.rep.failPutAt, w.rep.panicPutAt, w.rep.failReplayAt, w.rep.panicReplayAt))
@@ -1053,7 +1069,13 @@ func (w *joeWorld) checkDeliveries() {
 				}
 				buffered = stored < w.capacity
 			}
+			if w.ttl > 0 && L[s.idLpos].at+w.ttl <= s.acceptAt {
+				buffered = false // the presented event had expired when the subscription was accepted
+				startKnown = false
+				w.o.probe("presented ID of an expired event")
+			}
 			switch {
+			case !startKnown:
 			case buffered:
 				start = s.idLpos + 1
 			case w.auto:
@@ -1083,6 +1105,10 @@ func (w *joeWorld) checkDeliveries() {
 			// expected = filter(L[start..)) ; received must be a prefix of it, reaching at least the must-end
 			var expect []int
 			for i := start; i < len(L); i++ {
+				if i < s.acceptLpos && w.ttl > 0 && L[i].at+w.ttl <= s.acceptAt {
+					w.o.probe("expired event skipped by the replay")
+					continue // expired before the replay: must not be replayed (C09), is not missing (C04)
+				}
 				if topicsIntersect(s.topics, L[i].topics) {
 					expect = append(expect, i)
 				}
